@@ -426,7 +426,7 @@ def run_physical_unit(ctx):
     ctx.check("slots-built-for-(plan,output_node)", bool(log[0][1] is plan and log[0][2] is (OUT if has_out else None)), props=["C02"])
     ctx.check("prune_source_literals(plan,inplace=<as-given>)-no-predicate", bool(log[1][1] is plan and log[1][2] is inplace and log[1][3] is None), props=["C13"])
     e = log[2] if len(log) > 2 else (None,) * 6
-    ctx.check("engine-runs-the-pruned-plan's-graph-with-process", bool(e[1] == pruned.graph and callable(e[2]) and getattr(e[2], "__name__", "") == "process"))
+    ctx.check("engine-runs-the-pruned-plan's-graph-with-process", bool(e[1] == pruned.graph and callable(e[2])))      # what that function does with a call is required below
     ctx.check("engine-gets-max_workers,max_errors,scheduler-unchanged", bool(e[3] is MW and e[4] is ME and e[5] is SCHED), props=["C10"])
     ctx.check("the-function-the-engine-gets-runs-a-call's-bound-call-once-with(node.fn,the-retry-given-or-identity-when-none)",
               bool(len(bc_calls) == 1 and bc_calls[0][0] is user_fn and (bc_calls[0][1] is RETRY if retry_given else _acts_as_identity(bc_calls[0][1]))),
